@@ -19,7 +19,7 @@ func init() {
 		StubParts:  []string{"GenerationEvaluator and TrialRunObserver (scripted, logging)", "wall clock (fake clock for the sequential executor; real, unobserved clock for the parallel one)", "goroutine choice in parallel runs"},
 		FaultKinds: []string{"fault.eval-error", "fault.cancel@eval-entry", "fault.cancel@eval-mid(timer)", "fault.cancel@eval-exit", "fault.cancel@TrialRunStarted", "fault.cancel@EpochEvaluated", "fault.cancel@TrialRunFinished", "fault.cancel@epoch.prepared", "fault.cancel@offspring-k", "fault.cancel@speciate.begin", "fault.deadline-expired@eval-mid", "fault.eval-error-after-solved"},
 		Assumes:    []string{"after a cancellation the observer may still learn that the next trial started (the run notices the cancellation at the next generation check); that is a prefix of the ideal sequence and accepted"},
-		ProbeNames: []string{"probe.solved_early", "probe.solved_last_generation", "probe.unsolved_trial", "probe.no_observer", "probe.parallel", "probe.fault_free_run", "probe.nil_after_cancel_protocol_complete", "probe.single_fault_sweep", "probe.multi_fault", "probe.preallocated_trials", "probe.zero_generations", "probe.deadline_context"},
+		ProbeNames: []string{"probe.solved_early", "probe.solved_last_generation", "probe.unsolved_trial", "probe.no_observer", "probe.parallel", "probe.fault_free_run", "probe.nil_after_cancel_protocol_complete", "probe.single_fault_sweep", "probe.multi_fault", "probe.preallocated_trials", "probe.reused_experiment_object", "probe.zero_generations", "probe.deadline_context"},
 	})
 }
 
@@ -297,6 +297,10 @@ func scenarioC20(c *RunCtx) {
 	if t.Chance("preallocatedTrials", 1, 4) {
 		s.PreTrials = s.Opts.NumRuns + t.Draw("preallocatedTrials.extra", 3)
 		c.Count("probe.preallocated_trials")
+		if t.Chance("preallocatedTrials.used", 1, 2) {
+			s.PreTrialsUsed = true
+			c.Count("probe.reused_experiment_object")
+		}
 	}
 	// zero generations (and then nothing to solve) is a legal configuration: trials start and finish, nothing is evaluated
 	if t.Chance("zeroGenerations", 1, 16) {
